@@ -33,8 +33,22 @@ merge run on flushed, fully loaded graphs (non-delete cascades deliberately do n
 unloaded attributes; expire of a pending object expunges it by design); no object is
 deleted while the graph around it has unflushed changes; passive_deletes / viewonly /
 single_parent are at their defaults; duplicates, one-to-one "steals" and cycles in the
-tree are not generated; a pending object that is an orphan of a delete-orphan
-relationship is expunged by flush (documented) and modelled as such.
+tree are not generated.  Further guards found necessary:
+* removing a *pending* child from a delete-orphan parent expunges it (documented): while
+  objects are transient/pending, children of delete-orphan relationships are only ever
+  attached, never moved or removed;
+* in the self-referential kind an edge that is still in the database is never inverted,
+  not even transitively, within one flush (circular-dependency limitation);
+* ``Session.merge`` does not descend into a relationship of an object it reached through
+  that relationship's reverse side: the merge scenario is judged only on graphs where
+  that pruning cannot change the result (both traversal orders agree with the closure);
+* collections that still list objects deleted by the previous flush are stale by
+  design: everything is expired after each delete step.
+A flush that raises IntegrityError in the delete / orphan scenarios is reported (a row
+the cascade should have removed is still referencing a deleted one).
+
+Still firing on the live tree (candidate defect, see the report):
+``delete-orphan-toplevel-skips-delete-cascade``.
 """
 from __future__ import annotations
 
@@ -464,6 +478,7 @@ def persist_all(w, sess, names):
 
 
 def scenario_del(w, rng):
+    from sqlalchemy import exc as sa_exc
     from sqlalchemy import orm
 
     ctx = w.ctx
@@ -485,7 +500,18 @@ def scenario_del(w, rng):
             hist.append(["delete", x, "unloaded" if unloaded else "loaded"])
             before_rows = w.table_names(sess)
             sess.delete(w.obj[x])
-            sess.flush()
+            try:
+                sess.flush()
+            except sa_exc.IntegrityError as e:
+                # a row the delete cascade should have removed (or detached) is still
+                # referencing a deleted one: the cascade was not followed
+                ctx.count("del_checks")
+                violation(w, "DEL", "delete-cascade-%s-flush-integrityerror" % ("unloaded" if unloaded else "loaded"),
+                          "after %s flush raised IntegrityError on [%s]; delete closure %s" % (
+                              hist, str(e).split("[SQL:")[-1][:50], sorted(closure)),
+                          {"history": hist, "expected": sorted(closure), "error": str(e)[:300]})
+                sess.rollback()
+                break
             rows = w.table_names(sess)
             ctx.count("del_checks")
             deleted = before_rows - rows
